@@ -98,7 +98,7 @@ def run(tier="quick", seed=1, work=None, replay=None, focus="C18", ncases=None):
             base = ["--checksum"] if "--checksum" in mech else []
             common = (["--delete", "--force-delete"] if rng.chance(1, 2) else []) + ["-j", str(rng.pick([1, 4]))]
             fa = [x for x in mech] + common; fb = base + common
-            hist = []; clock = 2000; prev_keys = []
+            hist = []; clock = 2000; prev_keys = []; cache_damaged = False; all_keys = set()
             steps = rng.range(3, 6)
             for st in range(steps):
                 ops = []
@@ -110,6 +110,8 @@ def run(tier="quick", seed=1, work=None, replay=None, focus="C18", ncases=None):
                         oa = edit(ra, os.path.join(A, "src"), clock); ob = edit(rb, os.path.join(B, "src"), clock); ops.append(oa)
                     if rng.chance(1, 3): ops.append("sabotage:" + damage(rng, os.path.join(A, "dst"), st))
                 hist.append(ops)
+                # a damaged cache file stays damaged (and is read as empty) until a successful run saves a new one
+                if any(o.startswith("sabotage:.sy-dir-cache.json") for o in ops): cache_damaged = True
                 ra_, oa_, ea_ = run_sy([os.path.join(A, "src"), os.path.join(A, "dst"), "--json"] + fa, A)
                 rb_, ob_, eb_ = run_sy([os.path.join(B, "src"), os.path.join(B, "dst"), "--json"] + fb, B)
                 desc = {"case": ci, "seed": seed, "with": fa, "without": fb, "history": hist, "step": st, "exit_with": ra_, "exit_without": rb_, "stderr_with": ea_[-200:]}
@@ -136,13 +138,18 @@ def run(tier="quick", seed=1, work=None, replay=None, focus="C18", ncases=None):
                             for nme in dn: scan.append(enc_path(os.path.relpath(os.path.join(dp, nme), sroot)) + (":f" if os.path.islink(os.path.join(dp, nme)) else ":d"))
                             for nme in fn: scan.append(enc_path(os.path.relpath(os.path.join(dp, nme), sroot)) + ":f")
                             dn[:] = [d for d in dn if not os.path.islink(os.path.join(dp, d))]
-                        sabotaged = any(o.startswith("sabotage:.sy-dir-cache.json") for o in ops)
-                        prior = [] if sabotaged else prev_keys
+                        prior = [] if cache_damaged else prev_keys
                         m = drv.ask(f"caches.dircache {';'.join(enc_path(k) for k in prior) if prior else '-'} {';'.join(scan) if scan else '-'}").split(" ")
                         mdirs = [] if m[2] == "-" else sorted(dec_path(x) for x in m[2].split(";"))
                         if m[1] != "0": dis.append("model says the cache becomes usable")
-                        if sorted(set(mdirs)) != keys: dis.append(f"dir keys impl={keys[:5]} model={sorted(set(mdirs))[:5]}")
-                        prev_keys = keys
+                        # the saved file accumulates keys of earlier runs (it is also saved by runs that end with per-file errors),
+                        # so the comparison is: every key the model adds in this run is present, and every real key is one the
+                        # model knows (this run's scan or an earlier saved state)
+                        known = set(mdirs) | set(all_keys)
+                        if not set(m[2].split(";") if False else [k for k in mdirs if k not in prior]) <= set(keys) or not set(keys) <= known:
+                            dis.append(f"dir keys impl={keys[:6]} model-this-run={[k for k in mdirs if k not in prior][:6]}")
+                        all_keys |= set(keys)
+                        prev_keys = keys; cache_damaged = False
                     except (ValueError, OSError) as e:
                         dis.append(f"cannot read the saved cache: {e}")
                 rows = db_rows(os.path.join(A, "dst")) if "--checksum-db" in mech and ra_ == 0 else None
